@@ -1,6 +1,7 @@
 (* Entry points of the extracted driver. *)
-From Curies.model Require Export CheckQ W3C.
+From Curies.model Require Export CheckQ W3C CheckD.
 Definition dispatch (entry prop : Z) (case obs : val) : val :=
   (if entry =? 1 then run_query prop case obs
    else if entry =? 20 then run_w3c case obs
+   else if entry =? 19 then run_discover case obs
    else VList [VInt (-2)])%Z.
